@@ -342,7 +342,7 @@ func roundsZeroReturns(fd *ast.FuncDecl) bool {
 // spec.X becomes X, len(e) becomes an atom.
 func exprPoly(info *types.Info, e ast.Expr, defs map[types.Object]localDef, stop map[string]bool, depth int) (Poly, bool) {
 	e = ast.Unparen(e)
-	if depth > 12 {
+	if depth > 48 {
 		return nil, false
 	}
 	if tv, ok := info.Types[e]; ok && tv.Value != nil {
@@ -377,12 +377,26 @@ func exprPoly(info *types.Info, e ast.Expr, defs map[types.Object]localDef, stop
 		if d, ok := defs[info.Uses[x]]; ok && d.pos == 0 {
 			return exprPoly(info, d.rhs, defs, stop, depth+1)
 		}
+		if defs != nil && polyReach != nil {
+			if d, ok := polyReach.at(info.Uses[x], x); ok && d.pos == 0 {
+				return exprPoly(info, d.rhs, defs, stop, depth+1)
+			}
+		}
+		if a, ok := polyArgs[info.Uses[x]]; ok && depth < 40 {
+			if pp, ok := exprPoly(info, a, defs, stop, depth+8); ok {
+				return pp, true
+			}
+			return polyAtom(strings.ReplaceAll(exprText(info, a), " ", "")), true
+		}
+		if isRecvObj(info.Uses[x]) {
+			return polyAtom("recv"), true
+		}
 		return polyAtom(x.Name), true
 	case *ast.SelectorExpr:
 		if isSpecType(info.TypeOf(x.X)) {
 			return polyAtom(x.Sel.Name), true
 		}
-		return polyAtom(types.ExprString(x)), true
+		return polyAtom(exprTextD(info, x, defs, 0)), true
 	case *ast.CallExpr:
 		if isConversion(info, x) && len(x.Args) == 1 {
 			inner, ok := exprPoly(info, x.Args[0], defs, stop, depth+1)
@@ -400,7 +414,7 @@ func exprPoly(info *types.Info, e ast.Expr, defs map[types.Object]localDef, stop
 			if polyAbstract {
 				return polyAtom("len(" + absName(info, x.Args[0]) + ")"), true
 			}
-			return polyAtom("len(" + types.ExprString(x.Args[0]) + ")"), true
+			return polyAtom("len(" + exprTextD(info, x.Args[0], defs, 0) + ")"), true
 		}
 		fnName := ""
 		if f := calleeFunc(info, x); f != nil {
@@ -439,13 +453,13 @@ func exprPoly(info *types.Info, e ast.Expr, defs map[types.Object]localDef, stop
 		if !ok {
 			return nil, false
 		}
-		base := strings.ReplaceAll(types.ExprString(x.X), " ", "")
+		base := strings.ReplaceAll(exprTextD(info, x.X, defs, 0), " ", "")
 		if polyAbstract {
 			base = absName(info, x.X)
 		}
 		return polyAtom(base + "[" + strings.NewReplacer("*", "\u00b7", " ", "").Replace(ip.String()) + "]"), true
 	case *ast.SliceExpr:
-		txt := strings.ReplaceAll(types.ExprString(x), " ", "")
+		txt := strings.ReplaceAll(exprText(info, x), " ", "")
 		if polyAbstract {
 			txt = absName(info, x.X) + "[:]"
 		}
@@ -683,6 +697,7 @@ var polyAbstract = false
 
 // polyAbsSeen numbers the locals met during one abstract evaluation; callers reset it (nil) per top-level expression.
 var polyAbsSeen map[types.Object]int
+var polyAbsPerType map[string]int
 
 func absName(info *types.Info, e ast.Expr) string {
 	switch x := ast.Unparen(e).(type) {
@@ -692,13 +707,17 @@ func absName(info *types.Info, e ast.Expr) string {
 			// distinct locals of one type stay distinct: numbered by first occurrence in the expression at hand
 			if polyAbsSeen == nil {
 				polyAbsSeen = map[types.Object]int{}
+				polyAbsPerType = map[string]int{}
 			}
+			tn := strings.TrimLeft(t, "*")
 			k, ok := polyAbsSeen[v]
 			if !ok {
-				k = len(polyAbsSeen) + 1
+				// numbered per type, in order of first occurrence (canonCutAbs removes the order dependence)
+				polyAbsPerType[tn]++
+				k = polyAbsPerType[tn]
 				polyAbsSeen[v] = k
 			}
-			return fmt.Sprintf("\u00a7%s#%d", strings.TrimLeft(t, "*"), k)
+			return fmt.Sprintf("\u00a7%s#%d", tn, k)
 		}
 		return x.Name
 	case *ast.SelectorExpr:
@@ -759,4 +778,45 @@ func narrowing(info *types.Info, call *ast.CallExpr) string {
 		return ""
 	}
 	return fmt.Sprintf("trunc%d", to)
+}
+
+// polyRecv: when set (by the comparison and formula collectors, per method), the method's receiver is written `recv`
+// in atoms whatever it is called, so that renaming a receiver does not change any normal form.
+var polyRecv types.Object
+
+// polyRecv2: the receiver of the CALLING method while a helper is read at one of its call sites; polyArgs: that call's
+// arguments by parameter.
+var polyRecv2 types.Object
+var polyArgs map[types.Object]ast.Expr
+
+func isRecvObj(o types.Object) bool {
+	return o != nil && (o == polyRecv || o == polyRecv2)
+}
+
+// exprText renders an expression like types.ExprString, with the receiver canonicalised when polyRecv is set.
+func exprText(info *types.Info, e ast.Expr) string {
+	if polyRecv == nil && polyRecv2 == nil && polyArgs == nil {
+		return types.ExprString(e)
+	}
+	switch x := ast.Unparen(e).(type) {
+	case *ast.Ident:
+		if a, ok := polyArgs[info.Uses[x]]; ok {
+			if _, self := ast.Unparen(a).(*ast.Ident); !self || info.Uses[ast.Unparen(a).(*ast.Ident)] != info.Uses[x] {
+				return exprText(info, a)
+			}
+		}
+		if isRecvObj(info.Uses[x]) {
+			return "recv"
+		}
+		return x.Name
+	case *ast.SelectorExpr:
+		return exprText(info, x.X) + "." + x.Sel.Name
+	case *ast.StarExpr:
+		return "*" + exprText(info, x.X)
+	case *ast.IndexExpr:
+		return exprText(info, x.X) + "[" + exprText(info, x.Index) + "]"
+	case *ast.UnaryExpr:
+		return x.Op.String() + exprText(info, x.X)
+	}
+	return types.ExprString(e)
 }
